@@ -523,6 +523,12 @@ func gxFamilies(thorough bool) []gxFamily {
 		// every keyword in lower and mixed case
 		"false", "fAlSe", "tRuE", "TRUE", "a aNd b", "a oR b", "a or b", "a xOr b", "a iN b", "a in b", "a Like b", "a iS nUlL", "a is not null", "a Not In b", "a nOT lIKE b", "nOt a",
 		"a = false", "a = FALSE", "a AND true", "a and false",
+		// white space and comments are no tokens of the grammar wherever they stand: between a name and its argument list,
+		// before an index, inside the two- and three-word operators, after a sign, around parentheses
+		"f ␠ ( a )", "f /*c*/ ( a )", "f ␠ /*c*/ ␠ ( a , b )", "f Whitespace~\n ( )", "f /*c*/ ( )", "g ( f ␠ ( a ) , b )", "a + f Whitespace~\t ( b ) * c",
+		"h ( f /*c*/ ( a , g ␠ ( ) ) )", "- f ␠ ( a )", "f ␠ ( a ) [ b ]", "a ␠ [ b ]", "a /*c*/ [ b ]", "a [ ␠ b ␠ ]", "f ( a ) /*c*/ [ b ]", "- ␠ a", "- /*c*/ a", "NOT /*c*/ a",
+		"a IS /*c*/ NULL", "a IS ␠ NOT /*c*/ NULL", "a NOT /*c*/ IN b", "a NOT ␠ /*c*/ LIKE b", "( ␠ a ␠ )", "( /*c*/ a /*c*/ ) * b", "a Comment~/*x\ny*/ + Whitespace~\r\n b",
+		"f ␠ ( a", "f /*c*/ ( a , )", "a ␠ ( b )", "1 /*c*/ ( a )", "a IS /*c*/ b", "a ␠ NOT ␠ b", "f ␠ ( a ) ␠ ( b )", "a ␠ [ b ] ␠ [ c ]",
 	}})
 	// calls whose arguments are themselves calls of every small arity, in every position
 	var nested []string
@@ -543,6 +549,8 @@ func gxFamilies(thorough bool) []gxFamily {
 	fams = append(fams, gxFamily{"nested-calls", nested})
 	// tokens of every other tokenizer category: nothing but words, keywords, symbols and constants is classified
 	fams = append(fams, gxFamily{"unclassifiable-tokens", []string{
+		// a token handed in as a keyword whose text is no letter-case variant of one (KELVIN SIGN is not a K)
+		"a Keyword~li\u212ae b", "a NOT Keyword~LI\u212aE b", "Keyword~tr\u00fce", "a Keyword~\u00e4nd b",
 		"Unknown~?", "a Unknown~?", "a + Unknown~? b", "Unknown~? a", "a Unknown~? + b", "Eof~", "a Eof~", "a Eol~\\n b", "Special~$ a", "a + Special~$", "a Unknown~x", "Unknown~+ a",
 	}})
 	// every token string up to a bounded length over a representative alphabet
@@ -728,6 +736,9 @@ func (c *Ctx) gxRun() []*gxFamVerdict {
 				switch f.name {
 				case "malformed", "calls-index-grouping", "spacing-comments-case":
 					for _, it := range f.items {
+						if strings.Contains(it, "~") {
+							continue // typed lexemes have no spelling of their own
+						}
 						exprs = append(exprs, strings.ReplaceAll(strings.ReplaceAll(it, "␠", " "), "~", ""))
 					}
 				}
@@ -838,6 +849,8 @@ func (c *Ctx) gxRun() []*gxFamVerdict {
 			}
 		}
 	}
+	// renderings of the token strings as text: spacing, comments, letter case, margins, quoted positions
+	out = append(out, c.gxTextFamilies(fams)...)
 	gxMemo[c.Tier] = out
 	return out
 }
@@ -853,7 +866,7 @@ func onlyBlank(ls []lexeme) bool {
 
 func init() {
 	register(&Rule{ID: "GRAM.parse", Floor: 20,
-		Doc: "the parser evaluated abstractly through NewExpressionParser/ParseTokens/ResultTokens over finite families of token strings (all strings up to a bounded length over a representative alphabet, all ordered pairs of binary operators, prefix/postfix/call/index against every binary operator, calls, grouping, malformed forms, single-token mutations, spacing/comments/case): every sentence of the statement's grammar is compiled to the post-order of its syntax tree (#tree#…) and every other string is rejected with a coded error (#language#…)",
+		Doc: "the parser evaluated abstractly through NewExpressionParser/ParseTokens/ResultTokens over finite families of token strings (all strings up to a bounded length over a representative alphabet, all ordered pairs of binary operators, prefix/postfix/call/index against every binary operator, calls, grouping, malformed forms, single-token mutations, spacing/comments/case): every sentence of the statement's grammar is compiled to the post-order of its syntax tree (#tree#…) and every other string is rejected with a coded error (#language#…); a position quoted in a rejection is that of the offending token (#error-position#…). Through ParseString the token strings are also submitted as text in many renderings (nothing between lexemes that cannot merge, one blank everywhere, blanks / tabs / line breaks / control characters / comments in every gap and in each gap in turn, keywords in lower and alternating case; white space and comments around the text; Unicode spaces, which are unknown symbols; words that resemble keywords through KELVIN SIGN, dotless i, long s): same program, same acceptance, and the quoted position is the forward-scan line and column of the offending lexeme in the text as given",
 		Run: ruleGramParse})
 }
 
